@@ -13,11 +13,27 @@ import numpy as np
 LEVEL = "exploration"
 
 
+_MODEL_CLASS = []
+
+
 def make_model(ret, vectorisable):
-    """ret: how a single-point call answers: 'float' | '0d' | 'shape1' | 'arr'."""
+    """ret: how a single-point call answers: 'float' | '0d' | 'shape1' | 'arr'.
+
+    ONE class for every instance (the flags are instance attributes): anything nessai remembers
+    per class or per function instead of per instance leaks from one model to the next."""
+    if not _MODEL_CLASS:
+        _MODEL_CLASS.append(_model_class())
+    m = _MODEL_CLASS[0]()
+    m._ret, m._vectorisable = ret, vectorisable
+    return m
+
+
+def _model_class():
     from nessai.model import Model
 
     class M(Model):
+        _ret, _vectorisable = "float", True
+
         def __init__(self):
             self.names = ["x0", "x1"]
             self.bounds = {"x0": [-4.0, 4.0], "x1": [-2.0, 6.0]}
@@ -29,6 +45,7 @@ def make_model(ret, vectorisable):
                 self.seen[name].append(np.atleast_1d(x).copy())
 
         def _shape(self, v, x):
+            ret, vectorisable = self._ret, self._vectorisable
             if np.ndim(x) == 0 or (vectorisable is False):
                 if not vectorisable and np.size(x) != 1:
                     raise TypeError("only single points")
@@ -70,7 +87,7 @@ def make_model(ret, vectorisable):
             out["x1"] = (x["x1"] + 2.0) * 0.125
             return out
 
-    return M()
+    return M
 
 
 def points(n, unit):
